@@ -24,7 +24,7 @@ TRUSTED_BASE = [
     "axioms of every property theorem ⊆ {propext, Classical.choice, Quot.sound} (printed by Rbacx/Audit.lean on every run)",
     "hand-written model lean/Rbacx/Model/*.lean, tied to /repo by the correspondence harness (differential, this run) and harness/extract.py",
     "oracles computed by the harness without calling rbacx: CPython str()/float()/datetime parsing, json, hashlib",
-    "where a check uses the source-to-Lean translation (C02, C03, C05, C07, C17): harness/pytolean.py and the meaning of Python's operations in "
+    "where a check uses the source-to-Lean translation (C01, C02, C03, C05, C07, C11, C17): harness/pytolean.py and the meaning of Python's operations in "
     "lean/Rbacx/Model/PyLib.lean, both validated against CPython on every run (Run/SrcEval.lean, Run/SrcEvalFrag.lean, Run/SrcEvalTarget.lean, "
     "Run/SrcEvalObl.lean); "
     "for the translated obligation checker BasicObligationChecker.check (C07): EXTERNAL-FUNCTION PARAMETERS — _finite_number is not translated "
@@ -64,6 +64,25 @@ TRUSTED_BASE = [
     "PyOrdDict.lean on lists without a repeated key; `while …: popitem(last=False)` is fuel-bounded recursion with fuel len(d)+1 "
     "(proved sufficient: whilePopFirst_fuel); an instance of a dataclass no method ever assigns to is the record of its fields; "
     "by hand remain the RLock and thread interleavings (Model/CacheLock.lean) and __init__ (int(maxsize), the empty OrderedDict)",
+    "for the translated DECISION CORE OF THE ENGINE, statement ranges of Guard._evaluate_core_async (C01, C07, C11; harness/pytolean_async.py on top "
+    "of pytolean.py, lean/Rbacx/Model/PyAwait.lean, validated against CPython on every C01 run by Run/SrcEvalEngine.lean: the same statements "
+    "compiled as a real async def, stub collaborators sync and async) the trusted readings are: AWAITED COLLABORATOR OUTCOMES AS INPUTS — "
+    "`await maybe_await(self.obligations.check(raw, context))` / `…role_resolver.expand(roles)` is not translated but a function parameter whose "
+    "result is the call's outcome, some v = returned v, none = raised something `except Exception` catches (BaseException — cancellation, "
+    "KeyboardInterrupt — is not represented; maybe_await is part of the outcome: sync and async collaborators differ only in how the value "
+    "arrives), so the equalities speak about the source with the model's checker / resolver outcome in the call's place and what the built-in "
+    "checker computes is C07_translated's business; TRY/EXCEPT AS A CASE SPLIT — `try: T = <call>; <rest> except Exception: <handler>` is "
+    "`match outcome | some => bind T, rest | none => handler`, accepted only when the call is the first statement of the try body and <rest> "
+    "and <handler> consist of assignments of names / constants / bool(x) / not / is-None tests and ifs over them (nothing that raises on "
+    "JSON-shaped values: a user object whose __bool__ raises is outside), a pair target `ok, ch = …` unpacks as CPython does (list/tuple of "
+    "length 2, the keys of a 2-entry dict, a 2-character string) and anything else is the raising case with neither name bound; "
+    "logger.<method>(…) statements have no effect on values; `with self.<lock>:` is transparent; self.<attr> reads are inputs; frozen "
+    "dataclasses (Subject, Action, Resource, Context, Decision) are records of their declared fields — x.f = field read, getattr(x, 'f', d) = d "
+    "also for x = None, C(f=…) = the record in declaration order; the range designation (first/last top-level statement by text prefix, or ONE "
+    "nested assignment), which also builds the Python function the translation is compared with; the equalities hold for a subject whose roles "
+    "is a list or falsy (a str / dict there is iterated by CPython and by the translation, the model takes no roles: outside `roles: list[str]`) "
+    "and for raw decisions that are dicts (what evaluate / decide / the cache return); by hand remain _decide_async, the cache protocol around "
+    "it (C08), the contextvars, whether and how often the sinks are called, the sync wrappers",
 ]
 
 
